@@ -2124,6 +2124,11 @@ class Interp:
                 try:
                     cur.extend(self.iter_concrete(v, s))
                 except Unsupported:
+                    if hasattr(v, 'sym_binop'):
+                        r = v.sym_binop(self, '+', cur, True)
+                        if r is not NotImplemented:
+                            env.set(t.id, r)
+                            return
                     # concrete prefix + symbolic sequence: becomes a list of symbolic length
                     if not all(is_intlike(x) for x in cur):
                         raise
